@@ -1,7 +1,7 @@
 (* C03 for the Retry machine, part 8: concrete accepted traces (non-vacuity, the refutation of the literal
    timing clause, the only way a delegate future gets cancelled in this machine). *)
 From Coq Require Import List ZArith Bool Arith Lia.
-From ME Require Import Base.Machine Base.Fut Base.GenPrelude Gen.RetryGen Model.Retry Proofs.Retry_N0 Proofs.Retry_N6 Proofs.Retry_N7.
+From ME Require Import Base.Machine Base.Fut Base.GenPrelude Gen.RetryGen Model.Retry Proofs.Retry_N0 Proofs.Retry_N1 Proofs.Retry_N6 Proofs.Retry_N7.
 Import ListNotations.
 Local Open Scope Z_scope.
 
@@ -91,3 +91,96 @@ Qed.
 Lemma exc_facts :
   ds exc_state 0 = Cancelled /\ dfor exc_state 0 = 0%nat /\ rs exc_state 0 = CancelledNotified /\ jobs exc_state = [].
 Proof. vm_compute. repeat split. Qed.
+
+(* ---- G1: somebody else cancels the delegate future ---------------------------------------------------------------
+   submit; the worker submits attempt 1 (delegate future 0, record 1) and parks; an environment thread (2) calls
+   cancel() on delegate future 0 (EEnvCancel, wire code 23): Pending -> Cancelled, _delegate_callback runs inline,
+   finds the job (done(): op 1), sees cancelled() (op 0) and returns.  Quiescent; retry future 0 is Pending, its
+   record 1 is still in _jobs, in flight on the cancelled delegate future; the worker waits without timeout. *)
+Definition exl_prefix : list (Z * ev) :=
+  ex_submit 0 ++ ex_wsubmit 0 0 0 ++ ex_wclear 0 ++ [(0, EXSec 0 0); (0, EWWait 1)].
+Definition exl_trace : list (Z * ev) :=
+  exl_prefix ++ [(1, EEnvCancel 2 0 Pending); (1, EFD 2 1 0 Cancelled); (1, EFD 2 0 0 Cancelled)].
+Definition exl_state : st := match run step init exl_trace with Some s => s | None => init end.
+Lemma exl_accepted : run step init exl_trace <> None.
+Proof. vm_compute. discriminate. Qed.
+Lemma exl_reachable : reachable_from step init exl_state.
+Proof. exists exl_trace. vm_compute. reflexivity. Qed.
+Lemma exl_quiescent : quiescent exl_state None 0.
+Proof.
+  split; [|split; vm_compute; reflexivity].
+  intros t Ht. destruct t as [|[|[|t]]]; [exfalso; apply Ht; reflexivity|vm_compute; reflexivity..].
+Qed.
+Lemma exl_facts :
+  nfut exl_state = 1%nat /\ rs exl_state 0 = Pending /\ rout exl_state 0 = None /\ jobs exl_state = [1%nat] /\
+  jf (recs exl_state 1) = 0%nat /\ jdel (recs exl_state 1) = Some 0%nat /\ ds exl_state 0 = Cancelled /\
+  dcb exl_state 0 = true /\ In (HEnvCancel 0 1) (hist exl_state) /\
+  evf exl_state = false /\ wblock exl_state = Some (None, 0) /\ wnotif exl_state = false.
+Proof. vm_compute. repeat split. left. reflexivity. Qed.
+
+(* later: the delegate executor's worker picks the cancelled future up (set_running_or_notify_cancel answers False),
+   time passes, another submit() is served normally (future 1 finishes): future 0 is still Pending *)
+Definition exl_later_trace : list (Z * ev) :=
+  exl_trace ++ [(2, EEnvRun 2 0 Cancelled)] ++
+  ex_submit 3 ++ [(3, EWWoke 0); (3, EWClear)] ++ ex_wsubmit 3 1 1 ++ ex_wclear 3 ++
+  [(4, EEnvRun 2 1 Pending); (4, EEnvStart 2 1); (4, EEnvFinish 2 1 Running (Ok 7));
+   (4, EFD 2 1 1 Finished); (4, EFD 2 0 1 Finished); (4, EPolSR 2 0);
+   (4, EAcqM 2 1); (4, EFR 2 4 1 Pending); (4, ERelM 2 1); (4, EAcqM 2 1); (4, ERelM 2 1); (4, EXSec 2 4)] ++
+  [(5, EXSec 0 5); (5, EWWait 1)].
+Definition exl_later_state : st := match run step init exl_later_trace with Some s => s | None => init end.
+Lemma exl_later_accepted : run step init exl_later_trace <> None.
+Proof. vm_compute. discriminate. Qed.
+Lemma exl_later_facts :
+  clock exl_later_state = 5 /\ rs exl_later_state 0 = Pending /\ rs exl_later_state 1 = Finished /\
+  jobs exl_later_state = [1%nat] /\ ds exl_later_state 0 = CancelledNotified /\ wblock exl_later_state = Some (None, 5).
+Proof. vm_compute. repeat split. Qed.
+
+(* cancel() on the lost retry future itself does resolve it: delegate_future.cancel() answers True for the already
+   cancelled future, the job is popped, the retry future is cancelled *)
+Definition exl_cancel_trace : list (Z * ev) :=
+  exl_trace ++
+  [(2, ECallCancel 1 0); (2, EAcqM 1 0); (2, EFR 1 0 0 Pending); (2, EFR 1 1 0 Pending); (2, EXSec 1 2);
+   (2, EFD 1 2 0 Cancelled); (2, EXSec 1 2);
+   (2, EFR 1 2 0 Pending); (2, EFR 1 3 0 Cancelled); (2, ERelM 1 0); (2, EAcqM 1 0); (2, ERelM 1 0); (2, ERet 1 2)].
+Definition exl_cancel_state : st := match run step init exl_cancel_trace with Some s => s | None => init end.
+Lemma exl_cancel_accepted : run step init exl_cancel_trace <> None.
+Proof. vm_compute. discriminate. Qed.
+Lemma exl_cancel_facts :
+  rs exl_cancel_state 0 = CancelledNotified /\ jobs exl_cancel_state = [] /\ ds exl_cancel_state 0 = Cancelled /\
+  In (HCancelRet 0 true 2) (hist exl_cancel_state).
+Proof. vm_compute. repeat split. left. reflexivity. Qed.
+
+(* consequences: the statements that held before the machine had EEnvCancel are refuted by exl_state *)
+Lemma exl_foreign : foreign_cancelled exl_state 1.
+Proof. exists 0%nat. vm_compute. repeat split; auto. exists 1. left. reflexivity. Qed.
+
+(* the two-way reading of "no future is lost" (in flight and not done / sleeping with a timed wait) is false *)
+Lemma exl_two_way_refuted :
+  exists s tau since j, reachable_from step init s /\ quiescent s tau since /\ (j < nfut s)%nat /\ fdone (rs s j) = false /\
+    forall r, In r (jobs s) -> jf (recs s r) = j -> forall g, ~ (inflight_ok s r \/ sleeping_ok s g tau since r).
+Proof.
+  exists exl_state, None, 0, 0%nat. split; [exact exl_reachable|]. split; [exact exl_quiescent|].
+  split; [vm_compute; lia|]. split; [vm_compute; reflexivity|].
+  intros r Hin _ g. assert (r = 1%nat) by (vm_compute in Hin; destruct Hin as [<-|[]]; reflexivity). subst r.
+  intros [(d & A & _ & B & _)|(A & _)]; vm_compute in A.
+  - inversion A; subst d. vm_compute in B. discriminate.
+  - discriminate.
+Qed.
+
+(* "at quiescence the retry future of a cancelled delegate future is done" is false *)
+Lemma exl_cancelled_delegate_unresolved :
+  exists s tau since d, reachable_from step init s /\ quiescent s tau since /\ (d < ndel s)%nat /\
+    fcancelled (ds s d) = true /\ fdone (rs s (dfor s d)) = false.
+Proof.
+  exists exl_state, None, 0, 0%nat. split; [exact exl_reachable|]. split; [exact exl_quiescent|].
+  vm_compute. repeat split; lia.
+Qed.
+
+(* "at quiescence the delegate future of every in-flight record is not done" is false *)
+Lemma exl_inflight_done :
+  exists s tau since r d, reachable_from step init s /\ quiescent s tau since /\ In r (jobs s) /\
+    jdel (recs s r) = Some d /\ fdone (ds s d) = true.
+Proof.
+  exists exl_state, None, 0, 1%nat, 0%nat. split; [exact exl_reachable|]. split; [exact exl_quiescent|].
+  vm_compute. repeat split; auto.
+Qed.
